@@ -6,7 +6,8 @@
 #     unchanged tree (environmental failures are identical on both)
 # and copies patch.diff + demo into /verif/seeded/<ID>/.
 id="$1"; where="$2"; shift 2
-wt=/tmp/seed-$id
+wt=${SEED_PREFIX:-/tmp/seed-}$id
+out=/verif/seeded/${SEED_OUT:-}$id
 cd $wt || exit 2
 demo=$(ls SEED/test_demo.py SEED/demo.py 2>/dev/null | head -1)
 [ -z "$demo" ] && { echo "no demo"; exit 2; }
@@ -32,7 +33,7 @@ PATH=/venv/bin:$PATH PYTHONPATH=$wt /venv/bin/python -m pytest -q -p no:cachepro
 grep -E "^(FAILED|ERROR)" /dev/shm/seed-$id-tests.log | sort > /dev/shm/seed-$id-fails.txt
 tail -1 /dev/shm/seed-$id-tests.log
 echo "failures with change:"; cat /dev/shm/seed-$id-fails.txt | cut -c1-120
-mkdir -p /verif/seeded/$id
-git diff -- cylc > /verif/seeded/$id/patch.diff
-cp $demo /verif/seeded/$id/
-cp SEED/NOTES.md /verif/seeded/$id/NOTES.md 2>/dev/null
+mkdir -p $out
+git diff -- cylc > $out/patch.diff
+cp $demo $out/
+cp SEED/NOTES.md $out/NOTES.md 2>/dev/null
